@@ -510,6 +510,7 @@ func (am *ACMEIssuer) doIssue(ctx context.Context, csr *x509.CertificateRequest,
 				if err != nil {
 					return nil, false, err
 				}
+				params.Account = client.account
 				continue
 			}
 			return nil, usingTestCA, fmt.Errorf("%v %w (ca=%s)", nameSet, err, client.acmeClient.Directory)
